@@ -18,6 +18,25 @@ CLAIMS = {
               "harness and T1 extractor. Theorems range over skeleton families (no control flow inside expressions)."),
         technique="Lean 4 proof by mutual structural induction over an executable model + differential correspondence check",
         ref="DESIGN.md §3 C01"),
+    "C11": dict(
+        text=("Kernel-checked theorems about the orchestrator's failure-isolation state machine, for every list of files and every behaviour of "
+              "every rule (returns violations or raises an exception of some class): a contained file only adds its own violations and failure "
+              "records to the run, the results for the files before and after it are those of the run without it (siblings_unaffected, "
+              "without_file); the run exits 0/1 exactly when every file is contained, i.e. language detection succeeds and no rule raises a "
+              "non-Unicode ValueError (exit_ok_iff_contained, lintFile_ok_iff); an empty failure log is equivalent to every rule having "
+              "returned normally on every file it ran on (empty_log_iff_healthy); parallel mode reports the same on contained files "
+              "(parallel_matches_sequential); language detection is the one step outside the per-rule isolation (detection_is_not_isolated). "
+              "Tied to /repo by fuzzing with the guarded failure tap H1: 27 kinds of offending file (raw damage, grammar-aware mutations, "
+              "nesting / length blow-up, odd languages, every line-prefix of a valid file) among healthy files, two of 16 linter commands per "
+              "case as subprocesses with a time limit; exit code, timeouts, the tap's log and the siblings' findings are judged against the "
+              "specification, and the Lean model executed on the observed behaviours must predict exit code, violations and failure records. "
+              "Three genuine defects recorded as known findings (F11a huge integer literal exits 2, F11b lone surrogates, F11c RecursionError "
+              "on deep or long expressions)."),
+        note=("that no rule raises on a given input is a fact about tree-sitter, ast and the analyzers: it is outside the theorems and only sampled "
+              "by the fuzzing; hangs are observed through a 25 s limit per command; cross-file rules (dry, stringly-typed) are excluded from the "
+              "sibling comparison because an offending file's own content legitimately takes part in them."),
+        technique="Lean 4 proof (induction over file and rule lists, behaviours as parameters) + fuzzing correspondence through the failure tap",
+        ref="DESIGN.md §3 C11"),
     "C12": dict(
         text=("Kernel-checked theorems about the coordinate arithmetic every violation goes through, for every text over any alphabet with a "
               "newline symbol (bytes or code points; with or without final newline; any line endings) and every offset: a node that starts on "
@@ -306,7 +325,7 @@ def main():
     (VERIF / "MANIFEST.json").write_text(json.dumps(m, indent=1) + "\n")
 
 
-HOOK_COMMITS: list = []
+HOOK_COMMITS: list = ["28cf2a1"]
 NA: dict = {}
 
 if __name__ == "__main__":
